@@ -9,7 +9,8 @@ git -C /repo archive HEAD | tar -x -C $WT
 ( cd $WT && patch -p1 -s < $SD/patch.diff ) || { echo "PATCH FAILED"; rm -rf $WT; exit 2; }
 echo "== stable tests with the change"
 VERIF_REPO=$WT PYTHONPATH=$WT/src /verif/tools/baseline.py
-DEMO=$(ls $SD/demo.py $SD/demo.sh 2>/dev/null | head -1)
+TMPSD=$(mktemp -d /dev/shm/seedcopy-XXXX); cp -r $SD/. $TMPSD/   # demos write next to themselves: run a scratch copy
+DEMO=$(ls $TMPSD/demo.py $TMPSD/demo.sh 2>/dev/null | head -1)
 run_demo() { if [[ $DEMO == *.py ]]; then SRC=$1 PYTHONPATH=$1 timeout 600 /venv/bin/python $DEMO; else SRC=$1 PYTHONPATH=$1 timeout 600 bash $DEMO; fi; }
 echo "== demo without the change (expect 0)"; run_demo /repo/src >/dev/null 2>&1; echo "exit $?"
 echo "== demo with the change (expect non-zero)"; run_demo $WT/src >/dev/null 2>&1; echo "exit $?"
@@ -20,4 +21,4 @@ for P in "$@"; do
   echo "exit ${PIPESTATUS[0]}"
   rm -rf $OUT
 done
-rm -rf $WT
+rm -rf $WT $TMPSD
